@@ -1253,6 +1253,10 @@ def replay(ctx, case):
     sub = type(ctx)(ctx.prop, ctx.tier, ctx.seed, 1, ctx.driver)
     if isinstance(case, dict) and 'spec' in case and 'ops' in case:
         run_fixed(sub, case, [], [])
+    elif isinstance(case, dict) and 'hist' in case and isinstance(case['hist'], int) and case['hist'] < 0:
+        for entry in _corpus(sub):          # stored histories carry negative ids
+            if entry['spec'].get('idx') == case['hist']:
+                run_fixed(sub, entry, [], [])
     elif isinstance(case, dict) and 'hist' in case:
         _run_cases(sub, [case['hist']], [], [])
     elif isinstance(case, dict) and 'orientation_pair' in case:
